@@ -65,6 +65,10 @@ func runVF25(p *Prog, r *RuleRun) {
 			if f.TS["rot"] == "pending" {
 				delete(f.TS, "rot")
 			}
+		case ev == "POSTCOMMIT" && phase == "fail" && f.TS["rot"] == "committed":
+			// committed but not completed: the WAL never moved to the new segment and stops accepting writes
+			// (ORD-30); nothing to count on this path
+			f.TS["rot"] = "incomplete"
 		case strings.HasPrefix(ev, "COUNT(segment_rotations)") && phase == "call":
 			f.TS["counted"] = "1"
 		case ev == "RECV(trigger)":
